@@ -362,6 +362,8 @@ pub struct Ctx {
     pub idles: Vec<(u32, u32)>,
     /// end of the execution: monitors are off while reference cycles are being broken
     pub teardown: bool,
+    /// the running callback has asked for a disable / update of its own source (deferred by the loop)
+    pub cb_self_req: bool,
     /// a registration was made to fail (duplicate fd): from now on a damaged kernel table is
     /// also a C15 matter ("a failing call leaves every other source intact")
     pub dup_fault_seen: bool,
@@ -913,8 +915,12 @@ impl Ctx {
                 v.push(Op::RemoveSelfInsert(k));
             }
         }
+        // C09 gives an explicit non-Continue return precedence over a request the source made on
+        // itself earlier in the same callback; that combination belongs to the scripted world
+        // (postaction driver). Here a callback does one or the other.
         if c.cb_ret {
             match payload {
+                Payload::Fd(_) if self.cb_self_req => {}
                 Payload::Fd(_) => {
                     v.push(Op::RetRemove);
                     v.push(Op::RetDisable);
@@ -1163,6 +1169,7 @@ impl Ctx {
         // --- deviations: handle operations from inside the callback
         let mut ret = CbRet::default();
         self.cur.push(id);
+        self.cb_self_req = false;
         let mut nodrain = false;
         let mut ret_max = false;
         for _ in 0..self.cfg.max_cb_ops {
@@ -1199,13 +1206,19 @@ impl Ctx {
                     ret.timeout = Some(TimeoutAction::ToDuration(Duration::MAX));
                     ret_max = true;
                 }
-                other => self.apply(other),
+                other => {
+                    if matches!(other, Op::Disable(i) | Op::Update(i) if i == id) {
+                        self.cb_self_req = true;
+                    }
+                    self.apply(other)
+                }
             }
             if ret.post.is_some() || ret.timeout.is_some() {
                 break;
             }
         }
         self.cur.pop();
+        self.cb_self_req = false;
 
         // default behaviours
         if drain_fd && !nodrain {
@@ -2406,6 +2419,7 @@ pub fn run_history(cfg: &Rc<Cfg>, verbose: bool) -> (Outcome, Option<Vec<String>
         poisoned: false,
         idles: vec![],
         teardown: false,
+        cb_self_req: false,
         dup_fault_seen: false,
         dispatch_no: 0,
         pending_efd: None,
